@@ -29,10 +29,27 @@ type vCtx struct {
 	Ecd    *bgv.Encoder
 }
 
-func VerifSetup_Ctx(algebraic bool) *vCtx {
+func VerifSetup_Ctx(algebraic bool) *vCtx { return VerifSetup_CtxKind(algebraic, 0) }
+
+// VerifSetup_CtxKind: 0 = one auxiliary prime; 1 = two auxiliary primes (transformations and keys at a lower LevelP);
+// 2 = 61-bit Q primes (overflow margin 8: the lazy accumulators of the baby steps must be reduced every 4 terms),
+// natively with 64 columns so that a giant-step group really holds 16 and more diagonals.
+func VerifSetup_CtxKind(algebraic bool, kind int) *vCtx {
 	lit := bgv.ParametersLiteral{LogN: 4, LogQ: []int{45, 35, 35}, LogP: []int{40}, PlaintextModulus: 65537}
 	if algebraic {
 		lit = bgv.ParametersLiteral{LogN: 4, Q: []uint64{193, 257, 12289}, P: []uint64{769}, PlaintextModulus: 97}
+	}
+	switch kind {
+	case 1:
+		lit = bgv.ParametersLiteral{LogN: 4, LogQ: []int{45, 35, 35}, LogP: []int{40, 40}, PlaintextModulus: 65537}
+		if algebraic {
+			lit = bgv.ParametersLiteral{LogN: 4, Q: []uint64{193, 257, 12289}, P: []uint64{769, 1153}, PlaintextModulus: 97}
+		}
+	case 2:
+		lit = bgv.ParametersLiteral{LogN: 7, Q: []uint64{2305843009213616129, 2305843009213554689}, P: []uint64{2305843009213501441}, PlaintextModulus: 65537}
+		if algebraic {
+			lit = bgv.ParametersLiteral{LogN: 4, Q: []uint64{2305843009213616129, 2305843009213554689}, P: []uint64{2305843009213501441}, PlaintextModulus: 97}
+		}
 	}
 	params, err := bgv.NewParametersFromLiteral(lit)
 	if err != nil {
